@@ -77,7 +77,23 @@ DUNDERS = ("__add__ __sub__ __mul__ __truediv__ __pow__ __eq__ __ne__ __lt__ __l
 
 
 class AD(dict):
-    __getattr__ = dict.__getitem__
+    """operands of one call: ops.X.  Hidden entries (wave 4: rows that track only some operands) stay reachable as
+    attributes for the call but are not operands for the measurement (not snapshotted, not poked, not compared)."""
+
+    def __getattr__(self, k):
+        if k in self:
+            return self[k]
+        hid = self.__dict__.get("_hid", {})
+        if k in hid:
+            return hid[k]
+        raise AttributeError(k)
+
+    def hide(self, names):
+        hid = self.__dict__.setdefault("_hid", {})
+        for n in list(names):
+            if n in self:
+                hid[n] = self.pop(n)
+        return self
 
 
 class B:
@@ -167,12 +183,16 @@ class B:
 TABLE = {}
 
 
-def reg(ns, name, pclass, build, call, kind="pure", shapes=None, recv=None, thorough_shapes=True, allow=None, layouts=True):
+def reg(ns, name, pclass, build, call, kind="pure", shapes=None, recv=None, thorough_shapes=True, allow=None, layouts=True,
+        only=None, but=None, aspects=None, chg=None):
     """allow (nocopy rows only): predicate (result path, operand path) -> bool naming the sharing the documentation of the
-    no-copy construction permits; any other shared pair fails the row.  layouts=False: no memory-layout variants."""
+    no-copy construction permits; any other shared pair fails the row.  layouts=False: no memory-layout variants.
+    wave 4 (rows split along a known finding, so that its trigger is exactly (operation, parameter class, buffer set)):
+    only / but = names of the operands that are (not) tracked by this row; aspects = subset of ("changed", "shared") that this
+    row judges; chg = predicate on the path of a changed operand buffer: only those are judged by this row."""
     TABLE.setdefault((ns, name), []).append(
         dict(pclass=pclass, build=build, call=call, kind=kind, shapes=shapes, recv=recv if kind == "inplace" else None,
-             tshapes=thorough_shapes and shapes is None, allow=allow, layouts=layouts))
+             tshapes=thorough_shapes and shapes is None, allow=allow, layouts=layouts, only=only, but=but, aspects=aspects, chg=chg))
 
 
 def skip(ns, name, why):
@@ -1407,6 +1427,11 @@ def _idempotent_table():
 
 _idempotent_table()
 
+# ---- wave 4 (tools/props/c05_w4.py): new keywords of the repaired tree, direct solver calls, second-use histories,
+#      rows split along the open findings -----------------------------------------------------------------------------
+from props import c05_w4 as W4          # noqa: E402
+W4.register(globals())
+
 #TABLE-SECTIONS
 
 
@@ -1476,7 +1501,7 @@ def gen_cases(rng, tier):
                     cases.append(Case(f"{ns}.{name}", {"pclass": e["pclass"], "shape": list(shp), "seed": sd, "kind": e["kind"]}, nt))
                     # the same row with every caller-chosen array in another memory layout (C / F / non-contiguous view)
                     if nt and sd == 0 and e["layouts"] and (big or (shp in LAYOUT_SHAPES if e["shapes"] is None else shp == shapes[0])):
-                        for lay in U.LAYOUTS:
+                        for lay in U.LAYOUTS + U.LAYOUTS_W4:
                             cases.append(Case(f"{ns}.{name}", {"pclass": e["pclass"], "shape": list(shp), "seed": sd, "kind": e["kind"],
                                                                "layout": lay}, True))
     # tie of the hand transliteration in Model/C05View.v to the current source: sharing skeleton of every modelled function
@@ -1534,13 +1559,28 @@ def run_impl(c):
         if layout:
             for k in list(ops):
                 ops[k] = U.relayout(np, ops[k], layout)
+        if e.get("only") is not None:
+            ops.hide([k for k in ops if k not in e["only"] and k != e["recv"]])
+        if e.get("but") is not None:
+            ops.hide(e["but"])
+        if layout == "readonly":
+            for k in list(ops):
+                if k != e["recv"]:
+                    U.freeze(np, ops[k], k)
         return ops
     try:
         with contextlib.redirect_stdout(io.StringIO()):
             o = U.measure(np, build, lambda ops: _invoke(e["call"], ops, b), receiver=e["recv"])
     except Exception as ex:
         import traceback
-        return {"exc": type(ex).__name__, "msg": str(ex)[:300], "tb": traceback.format_exc()[-600:]}
+        return {"exc": type(ex).__name__, "msg": str(ex)[:300], "tb": traceback.format_exc()[-600:], "layout": layout}
+    if e.get("aspects") is not None:        # this row judges only some aspects (the others are judged by its sibling rows)
+        if "changed" not in e["aspects"]:
+            o["changed"], o["before"], o["after"] = [], {}, {}
+        if "shared" not in e["aspects"]:
+            o["shared"], o["vis_result"], o["vis_operand"] = [], [], []
+    if e.get("chg") is not None:
+        o["changed"] = [p_ for p_ in o["changed"] if e["chg"](p_)]
     o["kind"] = e["kind"]
     o["recv"] = e["recv"]
     if (c.op, ) and c.op in MODELLED:
@@ -1595,6 +1635,9 @@ def oracle(c, o):
     if c.op in ("stale", "model-tie"):
         return None
     if "exc" in o:
+        if o.get("layout") == "readonly" and "read-only" in str(o.get("msg", "")):
+            return ("the operation writes into an operand: with every operand array made read-only (setflags(write=False)) "
+                    "it raises " + o["exc"] + ": " + str(o.get("msg"))[:120])
         return None
     recv = o.get("recv")
     msgs = []
